@@ -44,6 +44,7 @@ def render : Ans → String
   | .ok => "ok"
   | .busy => "busy"
   | .badOp => "bad-op"
+  | .done => "done"
   | .pts l => showPts l
 
 def parsePt (s : String) : Option (TS × Val) :=
@@ -56,6 +57,7 @@ def parseAns (s : String) : Option Ans :=
   | ["ok"] => some .ok
   | ["busy"] => some .busy
   | ["bad-op"] => some .badOp
+  | ["done"] => some .done
   | ["pts", l] => (splitComma l).mapM parsePt |>.map .pts
   | _ => none
 
